@@ -86,6 +86,7 @@ struct Node
   bool poison = false;
   std::string f;     // call: callback function name or "stale"
   std::string end;   // inv: "gret" | "gthrow" | "" (unwound); call: "ok" | "poison" | "throw" | ""
+  bool catches = false; // call: the callback body catches the abort of an invocation it makes and goes on
   std::vector<int> kids;
 };
 static std::vector<Node> nodes; // index = id
@@ -152,7 +153,17 @@ static tainted<long, Sbx> cb(RS& sandbox, tainted<long, Sbx> tnode)
     out.put(e);
   }
   for (int k : n.kids) {
-    do_invoke(k);
+    if (n.catches) {
+      try {
+        do_invoke(k);
+      } catch (const std::runtime_error&) {
+        tr::Ev e("caught");
+        e.num("node", node);
+        out.put(e);
+      }
+    } else {
+      do_invoke(k);
+    }
   }
   if (n.end == "throw") {
     tr::Ev e("cb_ret");
@@ -471,11 +482,17 @@ int main(int argc, char** argv)
       Node n;
       n.id = nodes.size();
       n.f = a1;
+      n.catches = a2 == "1";
       nodes[stack.back()].kids.push_back(n.id);
       nodes.push_back(n);
       bool registered = a1 != "stale";
       if (registered) {
         stack.push_back(n.id);
+      }
+    } else if (op == "caught") {
+      // the abort was caught by the innermost catching callback body: frames above it were unwound
+      while (!stack.empty() && !(nodes[stack.back()].is_inv == false && nodes[stack.back()].catches)) {
+        stack.pop_back();
       }
     } else if (op == "cbret") {
       nodes[stack.back()].end = a1;
